@@ -56,18 +56,48 @@ string u64hex(uint64_t v) { char b[32]; snprintf(b, sizeof b, "%016llx", (unsign
 // A crash point is any persistence-relevant moment: the child process dumps the virtual disk and
 // _exits there (stdio buffers of the log files are lost, as with SIGKILL).
 struct VDisk;
+}  // namespace
 long g_crash_at = -1;   // -1 = no crash scheduled
 long g_crash_counter = 0;
 long g_crash_tear = 0;
+namespace { struct VDisk; }
+void DumpDiskAndExit();
+namespace {
 VDisk* g_disk = nullptr;
 string g_crash_dump_path;
-void DumpDiskAndExit();
-void CrashPoint(const char* what) {
+}
+static void CrashPoint(const char* what);
+namespace {
+}
+static void CrashPoint(const char* what) {
   (void)what;
   if (g_crash_at < 0) return;
-  if (g_crash_counter++ == g_crash_at) DumpDiskAndExit();
+  if (g_crash_counter++ == g_crash_at && g_crash_tear == 0) DumpDiskAndExit();
+  else if (g_crash_tear > 0 && g_crash_counter - 1 == g_crash_at && strncmp(what, "flush", 5) != 0) DumpDiskAndExit();
 }
+namespace {
 
+}  // namespace
+// Link-time interposition (-Wl,--wrap=fflush): every flush of a log file is a persistence point.  A crash
+// "inside" the flush leaves a torn record: only the first `tear` bytes of what this flush appended.
+extern "C" int __real_fflush(FILE* f);
+extern "C" int __wrap_fflush(FILE* f) {
+  if (g_crash_at < 0 || !f || f == stdout || f == stderr) return __real_fflush(f);
+  int fd = fileno(f);
+  off_t pre = lseek(fd, 0, SEEK_END);
+  CrashPoint("flush-before");
+  int r = __real_fflush(f);
+  off_t post = lseek(fd, 0, SEEK_END);
+  if (g_crash_tear > 0 && post > pre + 1 && g_crash_counter == g_crash_at) {
+    // torn variant of the next crash point
+    if (ftruncate(fd, pre + 1 + (g_crash_tear % (post - pre - 1))) != 0) {}
+    ++g_crash_counter;
+    DumpDiskAndExit();
+  }
+  CrashPoint("flush-after");
+  return r;
+}
+namespace {
 // ---------------------------------------------------------------- virtual disk
 struct VDisk : public DiskInterface {
   struct Entry { int64_t mtime; string contents; };
@@ -129,6 +159,7 @@ struct VDisk : public DiskInterface {
   }
 };
 
+}  // namespace
 void DumpDiskAndExit() {
   FILE* f = fopen(g_crash_dump_path.c_str(), "w");
   if (f && g_disk) {
@@ -140,6 +171,7 @@ void DumpDiskAndExit() {
   }
   _exit(77);
 }
+namespace {
 
 // ---------------------------------------------------------------- status recorder
 struct RecStatus : public Status {
@@ -692,7 +724,7 @@ void RunScenarioStep(Scenario* sc, const vector<string>& w, vector<string>* ev, 
       unlink(g_crash_dump_path.c_str());
       pid_t pid = fork();
       if (pid == 0) {
-        g_crash_at = bo.crash; g_crash_counter = 0; g_disk = &sc->disk;
+        g_crash_at = bo.crash; g_crash_counter = 0; g_disk = &sc->disk; g_crash_tear = bo.tear;
         vector<string> cev;
         DoBuild(sc, &bo, &cev);
         // build ended before the crash point was reached: report how many points there were
@@ -706,16 +738,6 @@ void RunScenarioStep(Scenario* sc, const vector<string>& w, vector<string>* ev, 
       FILE* f = fopen((sc->dir + "/crashpoints").c_str(), "r");
       if (f) { long n = 0; if (fscanf(f, "%ld", &n) == 1) ev->push_back("ev crash-not-reached points=" + std::to_string(n)); fclose(f); unlink((sc->dir + "/crashpoints").c_str()); }
       else ev->push_back("ev crashed status=" + std::to_string(WIFEXITED(st) ? WEXITSTATUS(st) : -WTERMSIG(st)));
-      if (bo.tear > 0) {
-        // torn write: cut `tear` bytes (mod size) off the log that was appended to last
-        for (const char* name : { "/.ninja_log", "/.ninja_deps" }) {
-          struct stat sb; string p = sc->dir + name;
-          if (stat(p.c_str(), &sb) == 0 && sb.st_size > 0 && ((bo.tear >> (name[8] == 'd' ? 0 : 0)) > 0)) {
-            // applied to one of them chosen by parity of tear
-            if ((bo.tear % 2 == 0) == (name[8] == 'l')) { off_t cut = bo.tear / 2 % sb.st_size; if (truncate(p.c_str(), sb.st_size - cut) == 0) ev->push_back(string("ev torn ") + name + " cut=" + std::to_string(cut)); }
-          }
-        }
-      }
     } else {
       DoBuild(sc, &bo, ev);
     }
